@@ -202,8 +202,10 @@ func init() {
 		pred := func(i string) string {
 			ex.pure++
 			defer func() { ex.pure-- }()
-			e := ex.sliceLoad(c.st, s, i)
-			return ex.callPure(f.F.Fn, []Val{e}, f.F.Bind, c.st).L[0]
+			return ex.pureScope(func() string {
+				e := ex.sliceLoad(c.st, s, i)
+				return ex.callPure(f.F.Fn, []Val{e}, f.F.Bind, c.st).L[0]
+			})
 		}
 		r := ex.freshConst("indexfunc", sInt)
 		iv := ex.fresh("i!if")
